@@ -117,6 +117,11 @@ func (r *safeRead) Entry(reader io.Reader) (*Entry, error) {
 	if h.klen > uint32(1<<16) { // Key length must be below uint16.
 		return nil, errTruncate
 	}
+	// The header may be garbage left by a torn or corrupted write. Its lengths are 32-bit values
+	// whose sum can wrap around, and no record can be longer than the file that holds it.
+	if r.lf != nil && r.lf.MmapFile != nil && uint64(h.klen)+uint64(h.vlen) > uint64(len(r.lf.Data)) {
+		return nil, errTruncate
+	}
 	kl := int(h.klen)
 	if cap(r.k) < kl {
 		r.k = make([]byte, 2*kl)
